@@ -191,7 +191,7 @@ def cbmc(b, tier):
     loops with a concrete trip count (table/bucket initialisation, fixed-size copies) then unwind exactly, data-dependent loops keep the harness bound"""
     h = b.h
     cap = h.get('unwind_cap', 130); extra = {}
-    for attempt in range(7 if h.get('unwind_gentle') else 5):
+    for attempt in range(9):
         results = cbmc_once(b, tier, extra)
         bad = [r for r in results if r.get('status') == 'FAILURE' and '.unwind.' in r.get('property', '')]
         if not bad or h.get('unwind_is_violation') or h.get('no_unwind_adapt'): return results
